@@ -4,6 +4,25 @@
 K = {"name": "TestKnown", "enum": True}
 
 CHECKS = {
+    "C11": {
+        "level": "exploration",
+        "tests": [
+            {"name": "TestC11Include", "checks": [3000, 15000], "shards": [2, 16], "floor": 0.85},
+            {"name": "TestC11Options", "enum": True},
+            K,
+        ],
+        "assumptions": ["only the hash-literal form of `with` is generated (the README documents no other)",
+                        "whether an included template may call the includer's macros or see its blocks is not specified and never relied upon"],
+    },
+    "C10": {
+        "level": "exploration",
+        "tests": [
+            {"name": "TestC10Inheritance", "checks": [3000, 15000], "shards": [2, 16], "floor": 0.75},
+            {"name": "TestC10Grid", "enum": True},
+            K,
+        ],
+        "assumptions": ["child templates contain only blocks, text and comments at top level; overriding blocks are defined at the top level of the child"],
+    },
     "C14": {
         "level": "exploration",
         "tests": [
